@@ -5,6 +5,7 @@ package main
 // IEEE-754 Float64 in the bit-precise tier or as rounded reals in tier R).
 
 import (
+	"sync"
 	"fmt"
 	"math"
 	"math/bits"
@@ -84,11 +85,14 @@ type TS struct {
 	next  int
 	Vars  []*Term
 	varBy map[string]*Term
+	mu    sync.Mutex // terms are also created by the parallel combination workers of the concurrent mode
 }
 
 func NewTS() *TS { return &TS{tab: map[string]*Term{}, varBy: map[string]*Term{}} }
 
 func (ts *TS) intern(t *Term) *Term {
+	ts.mu.Lock()
+	defer ts.mu.Unlock()
 	var sb strings.Builder
 	sb.WriteString(t.Op)
 	sb.WriteByte('|')
